@@ -493,6 +493,96 @@ def run(ctx):
                   (fc["data"], k, tuple(keep), mode))
         ctx.count("stream_or_kept_chunk_writes")
 
+    def fasta_default_buffer(case):
+        """two-line FASTA opened the default way (bnp.open('x.fa'): the multi-line FASTA buffer) and written back through the default writer; sequences of at most 80 letters
+        (80 exactly included) come back byte for byte.  Other FASTA files (short lines) are read in the same process in between."""
+        r = random.Random(case["seed"])
+        n = r.randint(1, 8)
+        recs = [("s%d%s" % (i, r.choice(["", " desc", "_x"])), "".join(r.choice("ACGT") for _ in range(r.choice([1, 2, 30, 60, 79, 80, 80, r.randint(1, 80)])))) for i in range(n)]
+        raws = [">%s\n%s\n" % x for x in recs]
+        path = ctx.path("d.fa")
+        with open(path, "w") as f:
+            f.write("".join(raws))
+        t = bnp.open(path).read()
+        if r.random() < 0.6:
+            other = ctx.path("o.fa")
+            w_ = r.choice([5, 30, 61])
+            with open(other, "w") as f:
+                f.write(">o1\n" + "\n".join(("ACGT" * 40)[i:i + w_] for i in range(0, 100, w_)) + "\n>o2\nAC\n")
+            bnp.open(other).read()
+            ctx.count("another_fasta_read_in_between")
+        kind = r.choice(["whole", "mask", "fancy", "slice", "reverse"])
+        idx = list(range(n))
+        if kind == "mask":
+            mk = [r.random() < 0.6 for _ in range(n)]
+            sel, idx = t[np.array(mk, dtype=bool)], [i for i in idx if mk[i]]
+        elif kind == "fancy":
+            idx = [r.randrange(n) for _ in range(r.randint(1, 5))]
+            sel = t[np.array(idx, dtype=int)]
+        elif kind == "slice":
+            a_ = r.randint(0, n - 1); idx = idx[a_:]; sel = t[a_:]
+        elif kind == "reverse":
+            idx = idx[::-1]; sel = t[::-1]
+        else:
+            sel = t
+        out = ctx.path("dout.fa")
+        wit = {"format": "fasta(default buffer)", "seed": case["seed"], "selection": kind, "lengths": [len(x[1]) for x in recs]}
+        try:
+            with bnp.open(out, "w") as f:
+                f.write(sel)
+            got = open(out).read()
+        except Exception as e:
+            if not originates_in_library(e):
+                raise
+            et, site = exc_site(e)
+            ctx.violation("fasta-default-buffer/write-raised:%s@%s" % (et, site), "writing a selection of a two-line FASTA read the default way raised %s: %s" % (et, str(e)[:100]), wit)
+            return
+        expected = "".join(raws[i] for i in idx)
+        ctx.check("write:fasta-default", got == expected, "fasta-default-buffer/bytes-differ-from-selected-source-records", "got %r, the selected records are %r" % (got[-200:], expected[-200:]), dict(wit, got=got[-600:], expected=expected[-600:]), (tuple(recs), kind, tuple(idx)))
+
+    for i in range(ctx.share(ctx.pick(320, 4000))):
+        ctx.run_case(fasta_default_buffer, {"seed": rng.randrange(2 ** 40)})
+
+    def rechunked_stream(case):
+        """the chunk tables of a file re-chunked to n lines each with the line re-chunker and the stream written in one call: the bytes of the file"""
+        from bionumpy.io.parser import chunk_lines
+        from bionumpy.streams import NpDataclassStream
+        r = random.Random(case["seed"])
+        fname = case["fmt"]
+        fmt = FORMATS[fname]
+        fc = make_file(fname, r, r.randint(5, 16), r.choice(["tiny", "normal"]), {"eol": "\n", "final_newline": True, "noncanon": True, "plusname": True, "tags": True, "score_mode": "int"})
+        path = ctx.path("rc" + fmt.suffix)
+        with open(path, "wb") as f:
+            f.write(fc["data"])
+        bt = tables.get_buffer_type(fmt.buffer)
+        longest = max(len(x) for x in fc["raws"]) + 2
+        k = r.randint(longest, longest * 3)
+        nl = r.randint(1, 7)
+        out = ctx.path("rcout" + fmt.suffix)
+        wit = {"format": fname, "k": k, "n_lines": nl, "seed": case["seed"], "source": fc["data"].decode("latin1")[:1000]}
+        try:
+            chunks = bnp.open(path, buffer_type=bt).read_chunks(min_chunk_size=k)
+            pieces = list(chunk_lines(iter(chunks), nl))
+            with bnp.open(out, "w", buffer_type=bt) as f:
+                for pc in pieces:
+                    f.write(pc)
+            got = open(out, "rb").read().decode("latin1")
+        except Exception as e:
+            if not originates_in_library(e):
+                raise
+            et, site = exc_site(e)
+            ctx.violation("%s/re-chunked/write-raised:%s@%s" % (fname, et, site), "writing re-chunked tables raised %s: %s" % (et, str(e)[:100]), wit)
+            return
+        expected = fc["data"].decode("latin1")
+        import re as _re
+        same_ = got == expected or (fname == "fastq" and _re.sub(r"\n\+[^\n]*\n", "\n+\n", got) == _re.sub(r"\n\+[^\n]*\n", "\n+\n", expected))
+        ctx.check("write:" + fname, same_, "%s/re-chunked/bytes-differ-from-the-file" % fname, "chunks of %d bytes re-chunked to %d lines and written: %d bytes, the file has %d" % (k, nl, len(got), len(expected)), dict(wit, got=got[-500:], expected=expected[-500:]), (fc["data"], k, nl))
+        ctx.count("rechunked_streams")
+
+    RC_FORMATS = ["bed6", "bed3", "bdg", "vcf", "sam", "narrowpeak"]
+    for i in range(ctx.share(ctx.pick(240, 3000))):
+        ctx.run_case(rechunked_stream, {"fmt": RC_FORMATS[i % len(RC_FORMATS)], "seed": rng.randrange(2 ** 40)})
+
     SEL_FORMATS = [f for f in SOURCES if f not in ("gtf", "bed12")]
     for i in range(ctx.share(ctx.pick(320, 4000))):
         ctx.run_case(stream_of_selections, {"fmt": SEL_FORMATS[i % len(SEL_FORMATS)], "seed": rng.randrange(2 ** 40), "mode": "stream" if i % 2 else "kept"})
